@@ -13,6 +13,8 @@ def main(tier, seed):
     kinds = ["fun", "jac", "callback", "ftarget", "gtol", "scaler", "update"]
     K = 2
     jobs = [(T, dict(K=K, ls_mode="unit", kind=k)) for k in kinds]
+    # faults of the objective / gradient INSIDE the real line search (SciPy DCSRCH tail cut as in C11)
+    jobs += [(T, dict(K=1, ls_mode="real", kind=k, maxls=2)) for k in ("fun", "jac")]
     if tier != "quick":
         jobs += [(T, dict(K=3, ls_mode="unit", kind=k)) for k in ("fun", "jac", "callback", "update")]
     exs = driver.explore_many(jobs, time_limit=1500 if tier == "quick" else 7200, timeout_ms=30000, max_paths=60000)
